@@ -6,6 +6,7 @@ package main
 import (
 	"encoding/json"
 	"fmt"
+	"math"
 	"sort"
 	"strings"
 
@@ -103,7 +104,7 @@ func (w *world) apply(o Op) {
 		}
 	case opIter:
 		it := w.tree.Iterator()
-		v, ok := w.succ(-1<<31, false)
+		v, ok := w.succ(math.MinInt, false)
 		w.its[o.S], w.mits[o.S] = it, iterModel{true, v, ok}
 		w.checkIterPos(o, o.S)
 	case opIterFrom:
@@ -166,7 +167,7 @@ func height(n *ad.AvlNode, depth int, bad *string) int {
 	return r + 1
 }
 
-func (sh *shape) walk(n, parent *ad.AvlNode, path string, lo, hi int, depth int) int {
+func (sh *shape) walk(n, parent *ad.AvlNode, path string, lo, hi *int, depth int) int {
 	if n == nil {
 		sh.sb.WriteString(".")
 		return 0
@@ -205,15 +206,16 @@ func (sh *shape) walk(n, parent *ad.AvlNode, path string, lo, hi int, depth int)
 			sh.bad = fmt.Sprintf("struct|deleted: reachable node %d is marked Deleted", n.Value)
 		}
 	}
-	if n.Value <= lo || n.Value >= hi {
+	if (lo != nil && n.Value <= *lo) || (hi != nil && n.Value >= *hi) {
 		if sh.bad == "" {
 			sh.bad = fmt.Sprintf("struct|order: node %d at %q violates search-tree order", n.Value, path)
 		}
 	}
 	sh.sb.WriteString("(")
-	hl := sh.walk(n.Left, n, path+"L", lo, min(hi, n.Value), depth+1)
+	v := n.Value
+	hl := sh.walk(n.Left, n, path+"L", lo, &v, depth+1)
 	fmt.Fprintf(&sh.sb, " %d#%d%s ", n.Value, n.Balance, pflag)
-	hr := sh.walk(n.Right, n, path+"R", max(lo, n.Value), hi, depth+1)
+	hr := sh.walk(n.Right, n, path+"R", &v, hi, depth+1)
 	sh.sb.WriteString(")")
 	if d := hr - hl; d < -1 || d > 1 {
 		if sh.bad == "" {
@@ -232,7 +234,7 @@ func (sh *shape) walk(n, parent *ad.AvlNode, path string, lo, hi int, depth int)
 
 func observe(t *ad.AvlTree) *shape {
 	sh := &shape{paths: map[*ad.AvlNode]string{}}
-	sh.walk(t.Root, nil, "", -1<<62, 1<<62, 0)
+	sh.walk(t.Root, nil, "", nil, nil, 0)
 	return sh
 }
 
@@ -289,7 +291,7 @@ func (w *world) fullChecks(K int) {
 	}()
 	want := w.sorted()
 	// membership and lower bound
-	for k := -1; k <= K; k++ {
+	for _, k := range probeKeys(K) {
 		n := w.tree.FindNode(k)
 		if (n != nil) != w.set[k] {
 			w.failf("find|FindNode", "FindNode(%d) found=%v, member=%v (set %v)", k, n != nil, w.set[k], want)
@@ -328,10 +330,10 @@ func (w *world) fullChecks(K int) {
 		}
 	}
 	g, f := walk(w.tree.Iterator())
-	cmp("Iterator", g, f, -1)
+	cmp("Iterator", g, f, math.MinInt)
 	g, f = walk(w.tree.SafeIterator())
-	cmp("SafeIterator", g, f, -1)
-	for k := -1; k <= K; k++ {
+	cmp("SafeIterator", g, f, math.MinInt)
+	for _, k := range probeKeys(K) {
 		g, f = walk(w.tree.IteratorFrom(k))
 		cmp("IteratorFrom", g, f, k)
 		g, f = walk(w.tree.SafeIteratorFrom(k))
@@ -369,7 +371,8 @@ func (w *world) cloneChecks(K int, hist []Op) {
 		}
 	}()
 	base := observe(w.tree)
-	for k := 0; k < K; k++ {
+	for k0 := 0; k0 < K; k0++ {
+		k := keyOff + k0
 		for _, del := range []bool{false, true} {
 			c := w.tree.Clone()
 			oc := observe(c)
@@ -456,6 +459,25 @@ func (w *world) cloneChecks(K int, hist []Op) {
 	}
 }
 
+// probeKeys: every key of the universe and, where representable, its two outer neighbours
+func probeKeys(K int) []int {
+	r := []int{}
+	lo, hi := keyOff, keyOff+K-1
+	if lo > math.MinInt {
+		r = append(r, lo-1)
+	}
+	for k := lo; ; k++ {
+		r = append(r, k)
+		if k == hi {
+			break
+		}
+	}
+	if hi < math.MaxInt {
+		r = append(r, hi+1)
+	}
+	return r
+}
+
 func build(hist []Op, nslot int) *world {
 	w := newWorld(nslot)
 	for _, o := range hist {
@@ -464,7 +486,13 @@ func build(hist []Op, nslot int) *world {
 	return w
 }
 
+// keyOff is the smallest key of the universe: keys are {keyOff .. keyOff+K-1}. Universes that contain
+// negative keys, zero, and the extreme ints are explored too (a seeded change special-cased
+// lower bounds <= 0; the re-find after a deletion adds 1 to the current key).
+var keyOff int
+
 type Case struct {
+	Off   int  `json:"key_offset"`
 	K     int  `json:"universe"`
 	Slots int  `json:"iterator_slots"`
 	Hist  []Op `json:"history"`
@@ -473,10 +501,10 @@ type Case struct {
 func enabled(w *world, K int) []Op {
 	ops := []Op{}
 	for k := 0; k < K; k++ {
-		ops = append(ops, Op{C: opInsert, K: k})
+		ops = append(ops, Op{C: opInsert, K: keyOff + k})
 	}
 	for k := 0; k < K; k++ {
-		ops = append(ops, Op{C: opDelete, K: k})
+		ops = append(ops, Op{C: opDelete, K: keyOff + k})
 	}
 	free := -1
 	for s := range w.its {
@@ -489,13 +517,14 @@ func enabled(w *world, K int) []Op {
 	if free >= 0 {
 		ops = append(ops, Op{C: opIter, S: free})
 		for k := 0; k < K; k++ {
-			ops = append(ops, Op{C: opIterFrom, K: k, S: free})
+			ops = append(ops, Op{C: opIterFrom, K: keyOff + k, S: free})
 		}
 	}
 	return ops
 }
 
-func explore(c *vf.Ctx, K, slots int) {
+func explore(c *vf.Ctx, K, slots, off int) {
+	keyOff = off
 	type item struct{ hist []Op }
 	seen := map[string]bool{}
 	w0 := newWorld(slots)
@@ -511,8 +540,8 @@ func explore(c *vf.Ctx, K, slots int) {
 			for _, o := range enabled(w, K) {
 				idx++
 				hist := append(append([]Op{}, it.hist...), o)
-				cs := Case{K, slots, hist}
-				c.Guard(fmt.Sprintf("K=%d|%s", K, o.C), int64(len(hist)), cs)
+				cs := Case{off, K, slots, hist}
+				c.Guard(fmt.Sprintf("K=%d,off=%d|%s", K, off, o.C), int64(len(hist)), cs)
 				n := build(hist, slots)
 				if c.Shard == 0 {
 					c.Trans(1)
@@ -561,8 +590,8 @@ func explore(c *vf.Ctx, K, slots int) {
 	if c.Shard == 0 {
 		c.States(int64(len(seen)))
 		c.Nontrivial(int64(len(seen)))
-		c.Count(fmt.Sprintf("bfs_depth_K%d_slots%d", K, slots), int64(depth))
-		c.Count(fmt.Sprintf("states_K%d_slots%d", K, slots), int64(len(seen)))
+		c.Count(fmt.Sprintf("bfs_depth_K%d_slots%d_off%d", K, slots, off), int64(depth))
+		c.Count(fmt.Sprintf("states_K%d_slots%d_off%d", K, slots, off), int64(len(seen)))
 	}
 }
 
@@ -587,14 +616,24 @@ func main() {
 			// tree-only exploration reaches larger universes (a seeded change in the
 			// delete rebalancing needed 8 distinct keys: height-4 tree + a specific
 			// shape below a non-root node), live iterators multiply the state space
+			// universes: {0..K-1}; centred on zero (negative keys); the K largest and the
+			// K smallest ints (arithmetic on keys must not wrap)
 			if c.Thorough() {
-				explore(c, 13, 0)
-				explore(c, 10, 1)
-				explore(c, 7, 2)
+				explore(c, 13, 0, 0)
+				explore(c, 10, 1, 0)
+				explore(c, 7, 2, 0)
+				explore(c, 9, 1, -4)
+				explore(c, 6, 2, -3)
+				explore(c, 6, 1, math.MaxInt-5)
+				explore(c, 6, 1, math.MinInt)
 			} else {
-				explore(c, 11, 0)
-				explore(c, 7, 1)
-				explore(c, 5, 2)
+				explore(c, 11, 0, 0)
+				explore(c, 7, 1, 0)
+				explore(c, 5, 2, 0)
+				explore(c, 7, 1, -3)
+				explore(c, 4, 2, -2)
+				explore(c, 5, 1, math.MaxInt-4)
+				explore(c, 5, 1, math.MinInt)
 			}
 		},
 		Replay: func(c *vf.Ctx, raw json.RawMessage) {
@@ -603,6 +642,7 @@ func main() {
 				c.HarnessError(err.Error())
 				return
 			}
+			keyOff = cs.Off
 			w := build(cs.Hist, cs.Slots)
 			if _, bad := w.canon(); bad != "" {
 				w.failf(strings.SplitN(bad, ":", 2)[0], "%s", bad)
